@@ -178,11 +178,23 @@ def main(tier):
                 t = r.choice((1, 1, 2, 3, 4, 6))
                 sd = r.choice((1, 2, 4, 6, 10, 20))
                 keep, k = 0, 0
-                src = (str(t) if t > 1 or r.random() < 0.5 else "") + "d" + str(sd)
-                if t > 1 and r.random() < 0.5:
+                dl = r.choice("dddD")
+                src = (str(t) if t > 1 or r.random() < 0.5 else "") + dl + str(sd)
+                if t > 1 and r.random() < 0.6:
                     keep = r.choice((1, 2, 3, 4))
-                    k = r.randint(1, t + 1)
-                    src += {1: "kl", 2: "kh", 3: "dl", 4: "dh"}[keep] + str(k)
+                    # every spelling of the modifier, with the count written or left out (then it is 1)
+                    sp = r.choice({1: ["kl", "q", "Q"], 2: ["kh", "k", "K"], 3: ["dl"], 4: ["dh"]}[keep])
+                    if r.random() < 0.35:
+                        k = 1
+                        src += sp
+                    else:
+                        k = r.randint(1, t + 1)
+                        src += sp + (str(k) if r.random() < 0.8 else f"({k})")
+                elif t == 1 and src[0] in "dD" and r.random() < 0.25:
+                    # dY优势 / dY劣势: two dice, keep the higher / lower
+                    adv = r.choice(["优势", "優勢", "劣势", "劣勢"])
+                    src += adv
+                    t, keep, k = 2, (2 if adv in ("优势", "優勢") else 1), 1
                 dmin = dmax = None
                 mmx = r.random()      # the grammar accepts at most one of min / max per term
                 if mmx < 0.3:
